@@ -1,7 +1,7 @@
 (* Props/C09.v — Constant folding is invisible (partial: see the level note). *)
 From Coq Require Import ZArith List Bool.
 From Rscel Require Import Base.Prims Model.Value Model.Ops Model.Funcs Model.Interp Model.Ast Model.Compile.
-From Rscel Require Import Proofs.Blocks Proofs.OpsColl Proofs.Fold.
+From Rscel Require Import Proofs.Blocks Proofs.OpsColl Proofs.Fold Proofs.Resolve.
 Import ListNotations.
 Import Coq.Strings.String.StringSyntax.
 Open Scope Z_scope.
@@ -40,6 +40,23 @@ Theorem C09_folded_map_equals_mkdict : forall rs E d pairs st lg,
     (ROk (None, SVal (const_map (interleave pairs) []) :: st), lg).
 Proof. intros. rewrite const_map_is_build_map. apply mkdict_spec. assumption. Qed.
 Print Assumptions C09_folded_map_equals_mkdict.
+
+(** ... with any keys: when a key is not a string both give the same error *value*
+    (the VM used to abort the evaluation there: [{0: 1}] vs [{x: 1}]) *)
+Theorem C09_mkdict_equals_folder : forall rs E d prs st lg,
+  Forall (fun kv => not_ident (fst kv) /\ not_ident (snd kv)) prs ->
+  step rs E d (IMkDict (zlen prs)) (dict_stack_v (rev prs) ++ st) lg =
+    (ROk (None, SVal (const_map (interleave_v prs) []) :: st), lg).
+Proof. exact mkdict_equals_folder. Qed.
+Print Assumptions C09_mkdict_equals_folder.
+
+(** a name the compiler cannot call (has, coalesce, a function bound by the caller) ends the
+    compile-time evaluation instead of becoming an error value that a match arm could absorb *)
+Theorem C09_not_callable_stops_folding : forall rs E d name st lg,
+  has_func E name = false -> has_macro E name = false -> env_type E name = None -> folding E = true ->
+  step rs E d (ICall 0) (SVal (VIdent name) :: st) lg = (RErr ERuntime, lg).
+Proof. exact not_callable_stops_folding. Qed.
+Print Assumptions C09_not_callable_stops_folding.
 
 (** the condition of ?: : the folder selects by [is_truthy] / keeps the error,
     exactly what the emitted code does for a constant condition (C05 block theorems) *)
